@@ -211,7 +211,7 @@ def emit_enum(en, out, env_fns):
                 attr = "#[transient(%s)] " % f.default if f.role == "transient" else ""
                 inner.append("%s%s: %s" % (attr, f.name, f.ty))
             lines.append("%s    %s { %s }," % (attrs, v.name, ", ".join(inner)))
-    out.append("#[allow(dead_code)]\npub enum %s {\n%s\n}" % (n, "\n".join(lines)))
+    out.append("#[allow(dead_code, non_camel_case_types)]\npub enum %s {\n%s\n}" % (n, "\n".join(lines)))
 
     def pat(v, names):
         if v.kind == "unit":
@@ -358,6 +358,13 @@ def base_catalogue():
     decls.append(Enum("ExtS1", [Variant("Bb", "tuple", Rec("Bb", [F("field0", "u8")])), Variant("Aa", "unit", Rec("Aa", []))], True))
     decls.append(Enum("ExtS2", [Variant("Zz", "unit", Rec("Zz", [])), Variant("Bb", "tuple", Rec("Bb", [F("field0", "u8")])),
                                 Variant("Aa", "unit", Rec("Aa", [])), Variant("Cc", "struct", Rec("Cc", [F("q", "String")]))], True))
+    # sorted constructors whose byte order and case-insensitive order disagree
+    decls.append(Enum("CaseSorted", [Variant("Id", "tuple", Rec("Id", [F("field0", "u32")])), Variant("IO", "tuple", Rec("IO", [F("field0", "u32")])),
+                                     Variant("Hb", "unit", Rec("Hb", [])), Variant("HTTP", "tuple", Rec("HTTP", [F("field0", "String")])),
+                                     Variant("aa", "unit", Rec("aa", [])), Variant("Zz", "unit", Rec("Zz", []))], True))
+    decls.append(Enum("ExtC1", [Variant("IO", "tuple", Rec("IO", [F("field0", "u32")])), Variant("HTTP", "tuple", Rec("HTTP", [F("field0", "String")]))], True))
+    decls.append(Enum("ExtC2", [Variant("IO", "tuple", Rec("IO", [F("field0", "u32")])), Variant("Id", "tuple", Rec("Id", [F("field0", "u32")])),
+                                Variant("HTTP", "tuple", Rec("HTTP", [F("field0", "String")]))], True))
     # many fields: position bytes beyond 127 (D15)
     decls.append(Rec("Many130", [F("f%d" % i, "u8") for i in range(130)]))
     decls.append(Rec("Many130Evolved", [F("f%d" % i, "u8") for i in range(130)] + [F("extra", "u16")], [("add", "extra", "1u16")]))
@@ -564,7 +571,7 @@ def main():
                 lacks = any(n not in rser for n in wser)
                 pair_lines.append("    v.pair::<%s, %s>(\"%s\", %d, %d, %s);" % (vnames[w], vnames[r], hname, w, r, "true" if lacks else "false"))
     out.append("\npub fn visit_hists<Vis: DeclVisitor>(v: &mut Vis) {\n%s\n}" % "\n".join(pair_lines))
-    out.append("\npub fn visit_exts<Vis: DeclVisitor>(v: &mut Vis) {\n    v.ext::<Ext1, Ext2>(2);\n    v.ext::<ExtS1, ExtS2>(2);\n}")
+    out.append("\npub fn visit_exts<Vis: DeclVisitor>(v: &mut Vis) {\n    v.ext::<Ext1, Ext2>(2);\n    v.ext::<ExtS1, ExtS2>(2);\n    v.ext::<ExtC1, ExtC2>(2);\n}")
     out.append("\npub const N_DECLS: usize = %d;\npub const N_HISTORIES: usize = %d;" % (len(names), len(hists)))
     content = "\n".join(x for x in out if x is not None) + "\n"
     os.makedirs(os.path.dirname(OUT), exist_ok=True)
